@@ -151,6 +151,10 @@ def resolve (b base : Text) : Option Text :=
           let t ← set_path pb1 (Path.parent_or_empty (path base))
           (path_mut t).normalize.map (·.buffer)
       let h ← (path_mut pb2).symbolic_append (Path.segmentList (path b2))
+      -- popping a shielded empty segment leaves its `.` shield behind
+      let h ← h.normalize
+      -- a lone empty segment is the trailing `/` of the removed dot segments
+      let h ← if h.view == [cSlash, cDot, cSlash] || h.view == [cDot, cSlash] then h.clear else some h
       set_path b2 (path h.buffer)
 
 /-! ## `relative_to`, `suffix`, `base` -/
